@@ -439,6 +439,8 @@ def judge_c02(run, observations):
         if not oracles.proper(structure):
             out.append(_violation(k, "proper", "no two crossing stems on one level", structure))
             continue
+        if step.get("proper_only"):
+            continue  # a feasible incumbent: lossless and proper are all that is asked of it
         best, _ = optimum_cached(pairs)
         if best is None:
             continue  # reference optimiser hit its cap: not judged
